@@ -73,6 +73,9 @@
 
 pub mod agent;
 
+#[cfg(kani)]
+mod verif_collections;
+
 pub use stun_types as types;
 
 #[derive(Clone)]
